@@ -31,7 +31,7 @@ RULE = ('full product trajectory x gyro model class x accel model class x measur
 ASSUMPTIONS = ['the grid and the use-once rule are C10\'s business: the oracle takes the grid from the result and '
                'fails fast if C10\'s structural rules are violated on the case',
                'tolerance 1e-5 of the row scale (cond(C_zz) eps with margin), reported tightness']
-MODEL_CLASSES = ['none', 'bias', 'bias_walk', 'noise', 'subset', 'scale_diag', 'scale_full', 'all']
+MODEL_CLASSES = ['none', 'bias', 'bias_walk', 'noise', 'subset', 'subset2', 'scale_diag', 'scale_full', 'all']
 STEPS = [0.2, 1.0, 5.0]
 STEP_BELOW_SAMPLING = 0.02      # shorter than the 0.05 s trajectory sampling: the filter advances row by row
 SIGMA_SCALES = [1e-2, 1e-1, 1.0, 10.0]
@@ -51,6 +51,10 @@ def make_model(cls, kind):
         return isn.EstimationModel(noise=nz)
     if cls == 'subset':
         return isn.EstimationModel(bias_sd=[b, 0, 2 * b], noise=[nz, nz, 0], bias_walk=[w, 0, 0])
+    if cls == 'subset2':
+        # enabled axes that are NOT a prefix of x, y, z - for every kind of term, and with unequal values
+        return isn.EstimationModel(bias_sd=[0, b, 2 * b], noise=[0, nz, 2 * nz], bias_walk=[0, 0, w],
+                                   scale_misal_sd=[[0, 0, 0], [s, 0, s], [0, s, 2 * s]])
     if cls == 'scale_diag':
         return isn.EstimationModel(bias_sd=b, noise=nz, scale_misal_sd=np.diag([s, s, 2 * s]))
     if cls == 'scale_full':
@@ -64,7 +68,7 @@ def gen_cases(tier, seed):
     if tier == 'quick':
         pairs = [('bias', 'bias'), ('none', 'none'), ('bias_walk', 'noise'), ('subset', 'all'),
                  ('scale_full', 'bias'), ('all', 'scale_diag'), ('noise', 'bias_walk'), ('scale_diag', 'subset'),
-                 ('all', 'all')]
+                 ('all', 'all'), ('subset2', 'subset2'), ('subset2', 'bias'), ('noise', 'subset2')]
         for (g, a), mix, step, wa in itertools.product(pairs, mixes, STEPS, (True, False)):
             k = pairs.index((g, a)) + mixes.index(mix) + STEPS.index(step)
             cases.append(dict(traj=(k + seed) % 4, gyro=g, accel=a, mix=''.join(mix), step=step, wa=wa,
@@ -78,7 +82,7 @@ def gen_cases(tier, seed):
             cases.append(dict(traj=(seed + 1) % 3, gyro=g, accel=a, mix=''.join(mix), step=STEP_BELOW_SAMPLING, wa=wa,
                               sigma=1.0))
         for g, a, mix, step, wa in itertools.product(MODEL_CLASSES, MODEL_CLASSES, mixes, STEPS, (True, False)):
-            k = MODEL_CLASSES.index(g) * 8 + MODEL_CLASSES.index(a) + mixes.index(mix) + STEPS.index(step)
+            k = MODEL_CLASSES.index(g) * len(MODEL_CLASSES) + MODEL_CLASSES.index(a) + mixes.index(mix) + STEPS.index(step)
             for sg in (SIGMA_SCALES[k % 4], SIGMA_SCALES[(k + 2) % 4]):
                 cases.append(dict(traj=(k + seed) % 4, gyro=g, accel=a, mix=''.join(mix), step=step, wa=wa,
                                   sigma=sg, lever=bool(k % 2)))
